@@ -97,3 +97,57 @@ def readHeaderAlloc (maxSize : Nat) (r : Reader) : Nat :=
 
 end Framing
 end Bifrost
+
+/-! ### Readers that hand out their final bytes together with the error
+
+The `io.Reader` contract allows a `Read` to return `n > 0` bytes AND a non-nil error (`io.EOF`,
+a reset) from the same call — quic-go does so when the data and the FIN arrive together,
+`iotest.DataErrReader` does so always. The reader of the sections above ends with a bare
+`(0, err)` read; here the way the stream ends is a parameter: with `lastWithErr = true` the `Read`
+call that hands out the last bytes of the last chunk also returns the error (a trailing empty
+chunk then is a `(0, err)` read). Every later `Read` returns `(0, err)`. -/
+namespace Bifrost
+namespace Framing
+
+/-- Go `readAtLeast(r, n, min, buf)` on a reader that ends as `lastWithErr` says:
+`nr, err := r.Read(buf[n:]); n += nr; if err != nil { if n >= min { break }; return n, err }`. -/
+def readAtLeastE : Reader → Bool → Bytes → Nat → Nat → Option (Bytes × Reader)
+  | [], _, have_, min, _ => if have_.length ≥ min then some (have_, []) else none
+  | ch :: rest, lastWithErr, have_, min, cap =>
+    if have_.length ≥ min then some (have_, ch :: rest) else          -- for n < min
+    let c := cap - have_.length                                        -- len(buf[n:])
+    if ch.length ≤ c then
+      if rest.isEmpty && lastWithErr then
+        -- this Read returned the final bytes AND the error: they are counted (n += nr) first
+        if (have_ ++ ch).length ≥ min then some (have_ ++ ch, []) else none
+      else readAtLeastE rest lastWithErr (have_ ++ ch) min cap
+    else
+      -- buffer filled completely (no error: bytes of the chunk remain)
+      if (have_ ++ ch.take c).length ≥ min then some (have_ ++ ch.take c, ch.drop c :: rest)
+      else none
+
+/-- `readStreamEstablishHeader` + protocol-ID validation (`readHeader`) on such a reader. -/
+def readHeaderE (maxSize : Nat) (r : Reader) (lastWithErr : Bool) : Except HdrErr (Bytes × Reader × Nat) :=
+  match readAtLeastE r lastWithErr [] 4 4 with
+  | none => .error .io
+  | some (b4, r1) =>
+    match Pb.consume b4 with
+    | .eof | .overflow => .error .badPrefix
+    | .ok headerLen n =>
+      if headerLen > maxInt32 then .error .badLen
+      else if headerLen > maxSize ∨ headerLen = 0 then .error .badLen
+      else
+        let pre := (b4.drop n).take headerLen
+        let nHave := b4.length - n
+        let body : Option (Bytes × Reader) :=
+          if nHave ≥ headerLen then some (pre, r1)
+          else readAtLeastE r1 lastWithErr pre headerLen headerLen
+        match body with
+        | none => .error .io
+        | some (hb, r2) =>
+          match decodeEstablish hb with
+          | .error _ => .error .badProto
+          | .ok pid => if pidValid pid then .ok (pid, r2, headerLen) else .error .badPid
+
+end Framing
+end Bifrost
